@@ -64,7 +64,39 @@ pub fn run(case: &Value, ctx: &Ctx) -> Outcome {
     }
     args.extend(["-O".into(), "npy".into()]);
     let a: Vec<&str> = args.iter().map(|s| s.as_str()).collect();
-    let combined = cli::sfs(ctx, &a, Some(&input));
+    // the destination of the combined invocation (View.tla: dest): stdout, or -o PATH onto a fresh path, onto a file
+    // holding an older and LONGER output, or onto the input file itself
+    let dest = case["dest"].as_str().unwrap_or("stdout");
+    out.tag(format!("dest:{dest}"));
+    let mut combined = if dest == "stdout" {
+        cli::sfs(ctx, &a, Some(&input))
+    } else {
+        let path = format!("{}/files/view_{}_{}.npy", ctx.work, std::process::id(), id);
+        std::fs::create_dir_all(format!("{}/files", ctx.work)).expect("mkdir");
+        let _ = std::fs::remove_file(&path);
+        let mut a_o: Vec<&str> = a.clone();
+        a_o.extend(["-o", &path]);
+        let r = match dest {
+            "fresh" => cli::sfs(ctx, &a_o, Some(&input)),
+            "stale" => {
+                let mut old = input.clone();
+                old.extend_from_slice(&input);
+                old.extend_from_slice(b"\n1.000000 2.000000 3.000000\n");
+                std::fs::write(&path, &old).expect("write stale");
+                cli::sfs(ctx, &a_o, Some(&input))
+            }
+            _ => {
+                std::fs::write(&path, &input).expect("write input");
+                a_o.push(&path);
+                cli::sfs(ctx, &a_o, None)
+            }
+        };
+        let bytes = std::fs::read(&path).unwrap_or_default();
+        let _ = std::fs::remove_file(&path);
+        out.check(!r.ok() || r.stdout.is_empty(), || "view/dest/stdout-not-empty-with-o".into(), || json!({"args": args, "stdout_len": r.stdout.len()}));
+        cli::Run { code: r.code, stdout: bytes, stderr: r.stderr }
+    };
+    let _ = &mut combined;
     if !combined.ok() {
         out.fail(format!("view/combined/{}", if combined.panicked() { "panic" } else { "error" }), json!({"args": args, "code": combined.code, "stderr": combined.stderr}));
         return out;
